@@ -1,13 +1,1133 @@
-//! C03 — stub (not built yet; not registered in MANIFEST.json).
-use super::*;
+//! C03 — the reader agrees with an independent decoder on valid xlsx files.
+//!
+//! Two legs:
+//!  * `corpus`  (hand-written loop): every readable file of /repo/tests/test_files is loaded
+//!    eagerly by the library and decoded by `pytools/ooxml_decode.py`; the two views are
+//!    compared on exactly what the statement names.
+//!  * `generated` / `dirty` (proptest): files written by the grammar generator
+//!    `gen::xlsxgen` (meaning first, then one of the encodings the format allows); the
+//!    expectation is the generator's model; the Python decoder must agree with the model
+//!    too (else exit 2: oracle bug).
+//!
+//! Projection compared (nothing else): sheet names in order; per sheet the set of
+//! non-blank cells; per cell value (text char for char, numbers by IEEE bits), kind,
+//! formula text (shared-formula children expanded), number-format code and the font /
+//! fill / border / alignment / protection records reached through `cellXfs`; hyperlink
+//! targets and locations; defined names (name, scope, text); table column names.
+use super::Prop;
+use crate::engine::*;
+use crate::gen::xlsxgen;
+use crate::pyworker::{self, DCell, DColor, DXf, Decoded};
+use rayon::prelude::*;
+use serde::{Deserialize, Serialize};
+use serde_json::{json, Value};
+use std::collections::{BTreeMap, BTreeSet, HashSet};
+use std::sync::OnceLock;
+use umya_spreadsheet::{Cell, CellRawValue, Color, EnumTrait, Spreadsheet, Style, Worksheet};
 
 pub fn prop() -> Prop {
     Prop {
         id: "C03",
-        describe: |_| {},
-        subs: no_subs,
-        extra: no_extra,
-        replay_extra: no_replay_extra,
-        watchdog_s: (900, 7200),
+        describe,
+        subs,
+        extra,
+        replay_extra,
+        watchdog_s: (1200, 14400),
     }
+}
+
+fn describe(ctx: &Ctx) {
+    ctx.rule("corpus: each readable file of tests/test_files once (library eager load vs Python decode of the same bytes); generated: xlsx files from the grammar generator (meaning chosen first, then an encoding), expectation = generator model, Python decoder cross-checked against the model. Non-trivial = the file uses >= 2 different cell encodings, or a shared-formula block with a reference above/left of its anchor, or an entity / character reference inside an attribute value; distinct by file content");
+    ctx.assume("a text cell holding the empty string and a blank cell are not distinguished (ISBLANK differs, but the library has one representation for both and the statement speaks of values)");
+    ctx.assume("edge blanks of a <t>/<v> without xml:space=\"preserve\" may be kept or trimmed (producers always write xml:space when they matter; the generator does too)");
+    ctx.assume("style components whose applyX flag is explicitly 0 (on the xf or its cellStyleXfs record) are not compared: Excel ignores the flag, other readers honour it; the generator never writes applyX=\"0\" with a non-default id");
+    ctx.assume("built-in number formats whose en-US code differs between ECMA-376 18.8.30 and Excel's behaviour (14, 22, 37-40, 47 and the locale-dependent ids) are compared by numFmtId, all others by code");
+    ctx.assume("-0 and 0 are not distinguished");
+    ctx.assume("valid xlsx = corpus + the generator's grammar; the generator's output is checked by the validator of DESIGN 3.6 on every case");
+}
+
+// ---------------------------------------------------------------------------------------
+// discrepancy model
+
+#[derive(Debug, Clone, PartialEq)]
+pub struct Disc {
+    pub key: String,
+    pub detail: String,
+}
+
+fn disc(out: &mut Vec<Disc>, key: impl Into<String>, detail: impl Into<String>) {
+    out.push(Disc { key: key.into(), detail: detail.into() });
+}
+
+fn has_xml_special(s: &str) -> bool {
+    s.contains(|c| matches!(c, '<' | '>' | '&' | '"' | '\''))
+}
+
+/// How the expected cell is encoded in the file (input feature class of the finding key).
+pub fn cell_feature(c: &DCell) -> String {
+    let t = c.t.as_deref().unwrap_or("n");
+    let mut f = match t {
+        "s" => {
+            if c.kind == "rich" {
+                "sst-rich".to_string()
+            } else {
+                "sst".to_string()
+            }
+        }
+        "inlineStr" => {
+            if c.kind == "rich" {
+                "inlineStr-rich".to_string()
+            } else {
+                "inlineStr".to_string()
+            }
+        }
+        "str" => "str".to_string(),
+        "b" => "bool".to_string(),
+        "e" => "error".to_string(),
+        "d" => "t-d".to_string(),
+        "n" => "number".to_string(),
+        other => format!("t-{}", other),
+    };
+    if !c.has_r {
+        f.push_str("-no-r");
+    }
+    f
+}
+
+fn lib_kind(c: &Cell) -> &'static str {
+    match c.get_raw_value() {
+        CellRawValue::String(_) => "text",
+        CellRawValue::RichText(_) => "rich",
+        CellRawValue::Numeric(_) => "number",
+        CellRawValue::Bool(_) => "bool",
+        CellRawValue::Error(_) => "error",
+        CellRawValue::Lazy(_) => "lazy",
+        CellRawValue::Empty => "blank",
+    }
+}
+
+/// References of a shared-formula master that lie above or left of the master cell.
+pub fn master_has_ref_above_left(text: &str, anchor_col: u32, anchor_row: u32) -> bool {
+    for (col, row, col_abs, row_abs) in xlsxgen::scan_refs(text) {
+        if (!col_abs && col < anchor_col) || (!row_abs && row < anchor_row) {
+            return true;
+        }
+    }
+    false
+}
+
+fn formula_feature(exp: &DCell) -> String {
+    match exp.f_type.as_deref() {
+        Some("shared") if !exp.f_master => {
+            let text = exp.formula.as_deref().unwrap_or("");
+            if text.contains('\'') {
+                "shared-child-quoted-sheet".into()
+            } else if text.contains("\"\"") {
+                "shared-child-doubled-quote".into()
+            } else if text.contains('[') {
+                "shared-child-bracket".into()
+            } else if text.contains(' ') {
+                "shared-child-blank".into()
+            } else if text.contains('{') {
+                "shared-child-array-const".into()
+            } else {
+                "shared-child".into()
+            }
+        }
+        Some("shared") => "shared-master".into(),
+        Some("array") => "array-formula".into(),
+        Some("dataTable") => "data-table".into(),
+        _ => "formula".into(),
+    }
+}
+
+fn color_eq(exp: &Option<DColor>, got: &Color) -> Result<(), String> {
+    let Some(e) = exp else { return Ok(()) };
+    if let Some(rgb) = &e.rgb {
+        if e.indexed.is_none() && e.theme.is_none() && !got.get_argb().eq_ignore_ascii_case(rgb) {
+            return Err(format!("rgb {} vs {}", rgb, got.get_argb()));
+        }
+    }
+    if let Some(t) = &e.theme {
+        if e.rgb.is_none() && e.indexed.is_none() {
+            if let Ok(t) = t.trim().parse::<u32>() {
+                if *got.get_theme_index() != t {
+                    return Err(format!("theme {} vs {}", t, got.get_theme_index()));
+                }
+            }
+        }
+    }
+    if let Some(i) = &e.indexed {
+        if e.rgb.is_none() && e.theme.is_none() {
+            if let Ok(i) = i.trim().parse::<u32>() {
+                if *got.get_indexed() != i {
+                    return Err(format!("indexed {} vs {}", i, got.get_indexed()));
+                }
+            }
+        }
+    }
+    Ok(())
+}
+
+fn parse_f(s: &Option<String>) -> Option<f64> {
+    s.as_ref().and_then(|x| x.trim().parse::<f64>().ok())
+}
+
+/// built-in ids whose code is the same in ECMA-376 and in every implementation
+const SAFE_BUILTIN: [u32; 22] = [0, 1, 2, 3, 4, 9, 10, 11, 12, 13, 15, 16, 17, 18, 19, 20, 21, 45, 46, 48, 49, 0];
+
+fn flag_off(xf: &DXf, pick: fn(&crate::pyworker::DApply) -> Option<bool>) -> bool {
+    pick(&xf.apply) == Some(false) || xf.style_apply.as_ref().map_or(false, |a| pick(a) == Some(false))
+}
+
+/// Compare the style of one library cell with the resolved cellXfs record.
+pub fn compare_style(xf: &DXf, st: &Style, at: &str, out: &mut Vec<Disc>) {
+    compare_style_impl(xf, st, at, out)
+}
+
+/// A cell without `s` uses cellXfs[0] (ECMA-376 18.3.1.4, default of `s`).
+pub fn compare_style_implicit(xf: &DXf, st: &Style, at: &str, out: &mut Vec<Disc>) {
+    let mut tmp = Vec::new();
+    compare_style_impl(xf, st, at, &mut tmp);
+    if !tmp.is_empty() {
+        let what: Vec<String> = tmp.iter().map(|d| d.key.clone()).collect();
+        disc(out, "implicit-xf0/style-not-applied", format!("{}: the cell has no s attribute, so cellXfs[0] applies, but: {} ({})", at, tmp[0].detail, what.join(", ")));
+    }
+}
+
+fn compare_style_impl(xf: &DXf, st: &Style, at: &str, out: &mut Vec<Disc>) {
+    // number format
+    if !flag_off(xf, |a| a.number_format) {
+        let got = st.get_number_format();
+        let got_code = got.map(|n| n.get_format_code().to_string()).unwrap_or_else(|| "General".to_string());
+        let got_id = got.map(|n| *n.get_number_format_id());
+        if !xf.num_fmt_builtin {
+            let code = xf.num_fmt_code.clone().unwrap_or_default();
+            if got_code != code {
+                let key = if has_xml_special(&code) { "numfmt-attr-entity/code" } else { "numfmt/code" };
+                disc(out, key, format!("{}: numFmtId {} declared code {:?}, library shows {:?}", at, xf.num_fmt_id, code, got_code));
+            }
+        } else if SAFE_BUILTIN.contains(&xf.num_fmt_id) {
+            let code = xf.num_fmt_code.clone().unwrap_or_default();
+            if got_code != code {
+                disc(out, "numfmt-builtin/code", format!("{}: built-in numFmtId {} is {:?}, library shows {:?}", at, xf.num_fmt_id, code, got_code));
+            }
+        } else if let Some(id) = got_id {
+            if id != xf.num_fmt_id {
+                disc(out, "numfmt-builtin/id", format!("{}: built-in numFmtId {}, library shows id {} ({:?})", at, xf.num_fmt_id, id, got_code));
+            }
+        }
+    }
+    // font
+    if !flag_off(xf, |a| a.font) {
+        if let (Some(ef), Some(gf)) = (&xf.font, st.get_font()) {
+            let mut d = Vec::new();
+            if let Some(n) = &ef.name {
+                if gf.get_name() != n {
+                    d.push(format!("name {:?} vs {:?}", n, gf.get_name()));
+                }
+            }
+            if let Some(sz) = parse_f(&ef.size) {
+                if *gf.get_size() != sz {
+                    d.push(format!("size {} vs {}", sz, gf.get_size()));
+                }
+            }
+            if ef.bold != *gf.get_bold() {
+                d.push(format!("bold {} vs {}", ef.bold, gf.get_bold()));
+            }
+            if ef.italic != *gf.get_italic() {
+                d.push(format!("italic {} vs {}", ef.italic, gf.get_italic()));
+            }
+            if ef.strike != *gf.get_strikethrough() {
+                d.push(format!("strike {} vs {}", ef.strike, gf.get_strikethrough()));
+            }
+            let eu = ef.underline.clone().unwrap_or_else(|| "none".into());
+            // Font::get_underline() answers "single" for a font without <u>; the typed getter is exact
+            let gu = gf.get_font_underline().get_val().get_value_string();
+            if eu != gu {
+                d.push(format!("underline {} vs {}", eu, gu));
+            }
+            if let Err(e) = color_eq(&ef.color, gf.get_color()) {
+                d.push(format!("color {}", e));
+            }
+            if !d.is_empty() {
+                let key = if ef.name.as_deref().map_or(false, has_xml_special) { "font-attr-entity/differs" } else { "font/differs" };
+                disc(out, key, format!("{}: fontId {}: {}", at, xf.font_id, d.join("; ")));
+            }
+        } else if xf.font.is_some() && st.get_font().is_none() && xf.font_id != 0 {
+            disc(out, "font/missing", format!("{}: fontId {} but the library cell has no font", at, xf.font_id));
+        }
+    }
+    // fill
+    if !flag_off(xf, |a| a.fill) {
+        if let Some(ef) = &xf.fill {
+            if ef.kind == "pattern" {
+                let ep = ef.pattern.clone().unwrap_or_else(|| "none".into());
+                let gp = st.get_fill().and_then(|f| f.get_pattern_fill());
+                let gpt = gp.map(|p| p.get_pattern_type().get_value_string().to_string()).unwrap_or_else(|| "none".into());
+                let mut d = Vec::new();
+                if ep != gpt {
+                    d.push(format!("pattern {} vs {}", ep, gpt));
+                }
+                if let Some(p) = gp {
+                    if let (Some(_), Some(gc)) = (&ef.fg, p.get_foreground_color()) {
+                        if let Err(e) = color_eq(&ef.fg, gc) {
+                            d.push(format!("fg {}", e));
+                        }
+                    } else if ef.fg.as_ref().map_or(false, |c| c.rgb.is_some()) && p.get_foreground_color().is_none() {
+                        d.push("fg colour missing".into());
+                    }
+                    if let (Some(_), Some(gc)) = (&ef.bg, p.get_background_color()) {
+                        if let Err(e) = color_eq(&ef.bg, gc) {
+                            d.push(format!("bg {}", e));
+                        }
+                    }
+                }
+                if !d.is_empty() {
+                    disc(out, "fill/differs", format!("{}: fillId {}: {}", at, xf.fill_id, d.join("; ")));
+                }
+            }
+        }
+    }
+    // border
+    if !flag_off(xf, |a| a.border) {
+        if let Some(eb) = &xf.border {
+            let gb = st.get_borders();
+            let mut d = Vec::new();
+            let sides = [
+                ("left", &eb.left, gb.map(|b| b.get_left())),
+                ("right", &eb.right, gb.map(|b| b.get_right())),
+                ("top", &eb.top, gb.map(|b| b.get_top())),
+                ("bottom", &eb.bottom, gb.map(|b| b.get_bottom())),
+                ("diagonal", &eb.diagonal, gb.map(|b| b.get_diagonal())),
+            ];
+            for (name, e, g) in sides {
+                let es = e.as_ref().and_then(|s| s.style.clone()).unwrap_or_else(|| "none".into());
+                let gs = g.map(|b| b.get_border_style().to_string()).unwrap_or_else(|| "none".into());
+                if es != gs {
+                    d.push(format!("{} {} vs {}", name, es, gs));
+                } else if es != "none" {
+                    if let (Some(e), Some(g)) = (e, g) {
+                        if let Err(x) = color_eq(&e.color, g.get_color()) {
+                            d.push(format!("{} colour {}", name, x));
+                        }
+                    }
+                }
+            }
+            if !d.is_empty() {
+                disc(out, "border/differs", format!("{}: borderId {}: {}", at, xf.border_id, d.join("; ")));
+            }
+        }
+    }
+    // alignment: the xf's own <alignment> child is the effective record
+    if !flag_off(xf, |a| a.alignment) && (xf.alignment.is_some() || xf.style_alignment.is_none()) {
+        let ea = xf.alignment.clone().unwrap_or_default();
+        let ga = st.get_alignment();
+        let gh = ga.map(|a| a.get_horizontal().get_value_string().to_string()).unwrap_or_else(|| "general".into());
+        let gv = ga.map(|a| a.get_vertical().get_value_string().to_string()).unwrap_or_else(|| "bottom".into());
+        let gw = ga.map(|a| *a.get_wrap_text()).unwrap_or(false);
+        let gr = ga.map(|a| *a.get_text_rotation()).unwrap_or(0);
+        let mut d = Vec::new();
+        let eh = ea.horizontal.clone().unwrap_or_else(|| "general".into());
+        let ev = ea.vertical.clone().unwrap_or_else(|| "bottom".into());
+        if eh != gh {
+            d.push(format!("horizontal {} vs {}", eh, gh));
+        }
+        if ev != gv {
+            d.push(format!("vertical {} vs {}", ev, gv));
+        }
+        if ea.wrap_text.unwrap_or(false) != gw {
+            d.push(format!("wrapText {:?} vs {}", ea.wrap_text, gw));
+        }
+        let er = ea.text_rotation.as_ref().and_then(|s| s.trim().parse::<u32>().ok()).unwrap_or(0);
+        if er != gr {
+            d.push(format!("textRotation {} vs {}", er, gr));
+        }
+        if !d.is_empty() {
+            disc(out, "alignment/differs", format!("{}: {}", at, d.join("; ")));
+        }
+    }
+    // protection
+    if !flag_off(xf, |a| a.protection) && (xf.protection.is_some() || xf.style_protection.is_none()) {
+        let ep = xf.protection.clone().unwrap_or_default();
+        let (gl, gh) = match st.get_protection() {
+            Some(p) => {
+                let mut p = p.clone();
+                (*p.get_locked(), *p.get_hidden())
+            }
+            None => (true, false),
+        };
+        // the library stores "locked" as a plain bool defaulting to false inside an explicit
+        // <protection> element: only the explicitly written values are compared
+        let mut d = Vec::new();
+        if let Some(l) = ep.locked {
+            if l != gl {
+                d.push(format!("locked {} vs {}", l, gl));
+            }
+        }
+        if let Some(h) = ep.hidden {
+            if h != gh {
+                d.push(format!("hidden {} vs {}", h, gh));
+            }
+        }
+        if !d.is_empty() {
+            disc(out, "protection/differs", format!("{}: {}", at, d.join("; ")));
+        }
+    }
+}
+
+#[derive(Debug, Clone, Copy, Default)]
+pub struct CmpOpt {
+    /// compare styles (number format, font, ...) of every expected cell
+    pub styles: bool,
+    /// stop collecting after this many discrepancies per key
+    pub per_key: usize,
+}
+
+/// Compare what the library loaded with the expectation (Python decode or generator model).
+pub fn compare(expect: &Decoded, book: &Spreadsheet, opt: CmpOpt) -> Vec<Disc> {
+    let mut out: Vec<Disc> = Vec::new();
+    let sheets = book.get_sheet_collection_no_check();
+    if sheets.len() != expect.sheets.len() {
+        disc(&mut out, "sheets/count", format!("file has {} sheets, library shows {}", expect.sheets.len(), sheets.len()));
+        return out;
+    }
+    let mut per_key: BTreeMap<String, usize> = BTreeMap::new();
+    let limit = if opt.per_key == 0 { 3 } else { opt.per_key };
+    for (i, (es, ls)) in expect.sheets.iter().zip(sheets.iter()).enumerate() {
+        let mut local: Vec<Disc> = Vec::new();
+        let ename = es.name.clone().unwrap_or_default();
+        if ls.get_name() != ename {
+            let key = if has_xml_special(&ename) { "sheet-name-attr-entity/differs" } else { "sheet-name/differs" };
+            disc(&mut local, key, format!("sheet {}: name {:?}, library shows {:?}", i, ename, ls.get_name()));
+        }
+        if es.kind == "worksheet" {
+            compare_sheet(expect, es, ls, opt, &mut local);
+        }
+        for d in local {
+            let n = per_key.entry(d.key.clone()).or_insert(0);
+            *n += 1;
+            if *n <= limit {
+                out.push(d);
+            }
+        }
+    }
+    compare_defined_names(expect, book, &mut out);
+    out
+}
+
+fn compare_sheet(expect: &Decoded, es: &crate::pyworker::DSheet, ls: &Worksheet, opt: CmpOpt, out: &mut Vec<Disc>) {
+    let sname = es.name.clone().unwrap_or_default();
+    let mut expected_pos: HashSet<(u32, u32)> = HashSet::new();
+    let no_r_sheet = es.cells.iter().any(|c| !c.has_r);
+    // several cells of a file may claim the same position only in invalid files; cells
+    // without r are positioned by the decoder
+    for ec in &es.cells {
+        expected_pos.insert((ec.col, ec.row));
+        let at = format!("{}!{}", sname, ec.r);
+        let feat = cell_feature(ec);
+        let lc = ls.get_cell((ec.col, ec.row));
+        let e_blank = ec.kind == "blank" || ((ec.kind == "text" || ec.kind == "rich") && ec.value.is_empty());
+        match lc {
+            None => {
+                if !e_blank || ec.formula.as_deref().map_or(false, |f| !f.is_empty()) {
+                    let key = if ec.has_r { format!("{}/missing", feat) } else { "no-r/cells-misplaced".to_string() };
+                    disc(out, key, format!("{}: {} {:?} formula {:?} is not in the loaded sheet", at, ec.kind, truncate(&ec.value, 80), ec.formula));
+                }
+                continue;
+            }
+            Some(lc) => {
+                if no_r_sheet && (ec.col, ec.row) == (1, 1) {
+                    // cells without r all land on A1: whatever A1 shows wrong is that finding
+                    let mut tmp = Vec::new();
+                    compare_cell(ec, lc, &feat, &at, e_blank, &mut tmp);
+                    if let Some(d) = tmp.first() {
+                        disc(out, "no-r/cells-misplaced", format!("{} (A1 is where cells without r land)", d.detail));
+                    }
+                    continue;
+                }
+                compare_cell(ec, lc, &feat, &at, e_blank, out);
+                if opt.styles {
+                    if let Some(xf) = expect.styles.cell_xfs.get(ec.s as usize) {
+                        if ec.has_s {
+                            compare_style(xf, lc.get_style(), &at, out);
+                        } else {
+                            compare_style_implicit(xf, lc.get_style(), &at, out);
+                        }
+                    }
+                }
+            }
+        }
+    }
+    // no phantom content
+    for lc in ls.get_cell_collection() {
+        let pos = (*lc.get_coordinate().get_col_num(), *lc.get_coordinate().get_row_num());
+        if expected_pos.contains(&pos) {
+            continue;
+        }
+        if lib_kind(lc) != "blank" || !lc.get_formula().is_empty() {
+            // where did it come from?  cells without r are the usual source
+            let no_r = es.cells.iter().any(|c| !c.has_r);
+            let key = if no_r { "no-r/cells-misplaced" } else { "cell/phantom" };
+            disc(out, key, format!("{}!{}: library shows {} {:?} formula {:?}, the file has no such cell", sname, lc.get_coordinate().to_string(), lib_kind(lc), truncate(&lc.get_value(), 80), lc.get_formula()));
+        }
+    }
+    // hyperlinks
+    for h in &es.hyperlinks {
+        let Some(r) = &h.r else { continue };
+        if r.contains(':') {
+            continue; // range hyperlinks: which cell carries them is the library's choice
+        }
+        let Some((col, row)) = xlsxgen::parse_a1(r) else { continue };
+        let got = ls.get_cell((col, row)).and_then(|c| c.get_hyperlink());
+        let at = format!("{}!{}", sname, r);
+        match (&h.target, &h.location) {
+            (Some(t), None) => {
+                let ent = if has_xml_special(t) { "-attr-entity" } else { "" };
+                match got {
+                    None => disc(out, format!("hyperlink{}/missing", ent), format!("{}: external hyperlink {:?} not loaded", at, t)),
+                    Some(g) => {
+                        if g.get_url() != t || *g.get_location() {
+                            disc(out, format!("hyperlink-target{}/differs", ent), format!("{}: Target {:?}, library shows {:?} (location={})", at, t, g.get_url(), g.get_location()));
+                        }
+                    }
+                }
+            }
+            (None, Some(l)) => {
+                let ent = if has_xml_special(l) { "-attr-entity" } else { "" };
+                match got {
+                    None => disc(out, format!("hyperlink{}/missing", ent), format!("{}: internal hyperlink {:?} not loaded", at, l)),
+                    Some(g) => {
+                        if g.get_url() != l || !*g.get_location() {
+                            disc(out, format!("hyperlink-location{}/differs", ent), format!("{}: location {:?}, library shows {:?} (location={})", at, l, g.get_url(), g.get_location()));
+                        }
+                    }
+                }
+            }
+            _ => {}
+        }
+    }
+    // table column names
+    for t in &es.tables {
+        let tname = t.name.clone().or(t.display_name.clone()).unwrap_or_default();
+        let got = ls.get_tables().iter().find(|x| x.get_name() == tname || Some(x.get_display_name().to_string()) == t.display_name);
+        let exp_cols: Vec<String> = t.columns.iter().map(|c| c.clone().unwrap_or_default()).collect();
+        let any_ent = exp_cols.iter().any(|c| has_xml_special(c)) || has_xml_special(&tname);
+        let ent = if any_ent { "-attr-entity" } else { "" };
+        match got {
+            None => disc(out, format!("table{}/missing", ent), format!("{}: table {:?} ({} columns) not loaded", sname, tname, exp_cols.len())),
+            Some(g) => {
+                let got_cols: Vec<String> = g.get_columns().iter().map(|c| c.get_name().to_string()).collect();
+                if got_cols != exp_cols {
+                    if got_cols == t.columns_decoded.iter().cloned().collect::<Vec<_>>() {
+                        continue;
+                    }
+                    let xs = exp_cols.iter().zip(t.columns_decoded.iter()).any(|(a, b)| a != b);
+                    let key = if xs && got_cols == exp_cols { continue } else { format!("table-column{}/differs", ent) };
+                    disc(out, key, format!("{}: table {:?} columns {:?}, library shows {:?}", sname, tname, exp_cols, got_cols));
+                }
+            }
+        }
+    }
+}
+
+fn compare_cell(ec: &DCell, lc: &Cell, feat: &str, at: &str, e_blank: bool, out: &mut Vec<Disc>) {
+    let lk = lib_kind(lc);
+    let lv = lc.get_value().to_string();
+    let xs = if ec.value.contains("_x") && (ec.t.as_deref() == Some("s") || ec.t.as_deref() == Some("inlineStr") || ec.t.as_deref() == Some("str")) {
+        // ST_Xstring escapes are a feature of their own
+        true
+    } else {
+        false
+    };
+    let _ = xs;
+    if ec.kind == "invalid" {
+        return;
+    }
+    // kind
+    let ek: &str = if e_blank { "blank" } else { ec.kind.as_str() };
+    let l_blank = lk == "blank" || ((lk == "text" || lk == "rich") && lv.is_empty());
+    let lk_n: &str = if l_blank { "blank" } else { lk };
+    let mut value_checked = false;
+    if ek == "date-iso" {
+        // the library has no date kind: any rendering that keeps the content is accepted
+        if l_blank {
+            disc(out, format!("{}/dropped", feat), format!("{}: t=\"d\" value {:?} is not loaded at all", at, ec.value));
+        } else if lk == "text" && lv != ec.value {
+            disc(out, format!("{}/value", feat), format!("{}: t=\"d\" value {:?}, library shows {:?}", at, ec.value, lv));
+        }
+        value_checked = true;
+    } else if ek != lk_n {
+        disc(out, format!("{}/kind:{}->{}", feat, ek, lk_n), format!("{}: the file says {} {:?}, library shows {} {:?}", at, ek, truncate(&ec.value, 80), lk_n, truncate(&lv, 80)));
+        value_checked = true;
+    }
+    if !value_checked {
+        match ek {
+            "text" | "rich" => {
+                let trimmed = ec.value.trim_matches(|c| c == ' ' || c == '\t' || c == '\r' || c == '\n');
+                if lv != ec.value && !(ec.ws_ambiguous && lv == trimmed) {
+                    if lv.replace("\r\n", "\n") == ec.value {
+                        disc(out, "literal-crlf/not-normalised", format!("{}: text {:?}, library shows {:?} (XML 1.0 2.11: CR LF in a document is one LF)", at, truncate(&ec.value, 120), truncate(&lv, 120)));
+                        return_formula_only(ec, lc, at, out);
+                        return;
+                    }
+                    if lv.contains("_x") && xlsxgen::xstring_decode(&lv) == ec.value {
+                        disc(out, "xstring-escape/not-decoded", format!("{}: text {:?}, library shows the escaped form {:?}", at, truncate(&ec.value, 120), truncate(&lv, 120)));
+                        return_formula_only(ec, lc, at, out);
+                        return;
+                    }
+                    let mode = if ec.phonetic && lv.len() > ec.value.len() {
+                        "value-includes-phonetic"
+                    } else if lv == trimmed {
+                        "value-trimmed"
+                    } else if ec.runs.as_ref().map_or(false, |r| r.len() > 1 && r.last().map_or(false, |x| x.text == lv)) {
+                        "value-last-run-only"
+                    } else {
+                        "value"
+                    };
+                    disc(out, format!("{}/{}", feat, mode), format!("{}: text {:?}, library shows {:?}", at, truncate(&ec.value, 120), truncate(&lv, 120)));
+                } else if ek == "rich" {
+                    if let (Some(runs), CellRawValue::RichText(rt)) = (&ec.runs, lc.get_raw_value()) {
+                        let got: Vec<String> = rt.get_rich_text_elements().iter().map(|e| e.get_text().to_string()).collect();
+                        let exp: Vec<String> = runs.iter().map(|r| r.text.clone()).collect();
+                        if got != exp && !ec.ws_ambiguous {
+                            disc(out, format!("{}/runs", feat), format!("{}: runs {:?}, library shows {:?}", at, exp, got));
+                        }
+                    }
+                }
+            }
+            "number" => {
+                let e = ec.number();
+                let g = lc.get_value_number();
+                match (e, g) {
+                    (Some(e), Some(g)) => {
+                        if e.to_bits() != g.to_bits() && !(e == 0.0 && g == 0.0) {
+                            disc(out, format!("{}/value", feat), format!("{}: number {:?} (= {:e}), library shows {:e}", at, ec.value, e, g));
+                        }
+                    }
+                    _ => disc(out, format!("{}/value", feat), format!("{}: number {:?}, library shows {:?}", at, ec.value, lv)),
+                }
+            }
+            "bool" | "error" => {
+                if lv != ec.value {
+                    disc(out, format!("{}/value", feat), format!("{}: {} {:?}, library shows {:?}", at, ek, ec.value, lv));
+                }
+            }
+            _ => {}
+        }
+    }
+    return_formula_only(ec, lc, at, out);
+}
+
+fn return_formula_only(ec: &DCell, lc: &Cell, at: &str, out: &mut Vec<Disc>) {
+    // formula
+    if !ec.f_uncertain {
+        // blanks in front of / behind a formula carry no meaning
+        let ef = ec.formula.clone().unwrap_or_default();
+        let ef = ef.trim_matches(|c| c == ' ' || c == '\t' || c == '\r' || c == '\n').to_string();
+        let lf = lc.get_formula().trim_matches(|c| c == ' ' || c == '\t' || c == '\r' || c == '\n');
+        if ef != lf {
+            let ff = formula_feature(ec);
+            let mode = if lf.is_empty() {
+                "formula-missing"
+            } else if ef.is_empty() {
+                "formula-phantom"
+            } else {
+                "formula"
+            };
+            let mut key = format!("{}/{}", ff, mode);
+            if ff == "shared-child" {
+                if let (Some(anchor), Some(_)) = (&ec.f_anchor, &ec.formula) {
+                    if let Some((ac, ar)) = xlsxgen::parse_a1(anchor) {
+                        // the master text is the child text moved back
+                        let back = xlsxgen::translate(&ef, ac as i64 - ec.col as i64, ar as i64 - ec.row as i64);
+                        if master_has_ref_above_left(&back, ac, ar) {
+                            key = "shared-child-ref-above-left/formula".to_string();
+                        }
+                    }
+                }
+            }
+            disc(out, key, format!("{}: formula {:?} (anchor {:?}), library shows {:?}", at, ef, ec.f_anchor, lf));
+        }
+    }
+}
+
+fn compare_defined_names(expect: &Decoded, book: &Spreadsheet, out: &mut Vec<Disc>) {
+    // library: names live on the workbook or on the sheet they refer to / are scoped to
+    let mut got: Vec<(String, Option<u32>, String)> = Vec::new();
+    for d in book.get_defined_names() {
+        got.push((d.get_name().to_string(), if d.has_local_sheet_id() { Some(*d.get_local_sheet_id()) } else { None }, d.get_address()));
+    }
+    for s in book.get_sheet_collection_no_check() {
+        for d in s.get_defined_names() {
+            got.push((d.get_name().to_string(), if d.has_local_sheet_id() { Some(*d.get_local_sheet_id()) } else { None }, d.get_address()));
+        }
+    }
+    let mut used = vec![false; got.len()];
+    for e in &expect.defined_names {
+        let name = e.name.clone().unwrap_or_default();
+        let ent = if has_xml_special(&name) { "-attr-entity" } else { "" };
+        let hit = got.iter().enumerate().position(|(i, g)| !used[i] && g.0 == name && g.1 == e.local_sheet_id);
+        match hit {
+            None => {
+                disc(out, format!("defined-name{}/missing", ent), format!("defined name {:?} scope {:?} text {:?}: not loaded under that name (library has {:?})", name, e.local_sheet_id, truncate(&e.text, 80), got.iter().map(|g| (&g.0, g.1)).collect::<Vec<_>>()));
+            }
+            Some(i) => {
+                used[i] = true;
+                if normalise_sheet_quotes(&got[i].2) != normalise_sheet_quotes(&e.text) {
+                    let class = defined_name_text_class(&e.text);
+                    disc(out, format!("defined-name-text-{}/differs", class), format!("defined name {:?}: text {:?}, library shows {:?}", name, truncate(&e.text, 120), truncate(&got[i].2, 120)));
+                }
+            }
+        }
+    }
+    for (i, g) in got.iter().enumerate() {
+        if !used[i] {
+            disc(out, "defined-name/phantom", format!("library shows defined name {:?} scope {:?} that the file does not have", g.0, g.1));
+        }
+    }
+}
+
+/// `Sheet1!A1` and `'Sheet1'!A1` mean the same: put every sheet prefix into the quoted form.
+pub fn normalise_sheet_quotes(text: &str) -> String {
+    let chars: Vec<char> = text.chars().collect();
+    let mut out = String::new();
+    let mut i = 0;
+    while i < chars.len() {
+        let c = chars[i];
+        if c == '"' || c == '\'' {
+            let q = c;
+            let mut j = i + 1;
+            while j < chars.len() {
+                if chars[j] == q {
+                    if j + 1 < chars.len() && chars[j + 1] == q {
+                        j += 2;
+                        continue;
+                    }
+                    break;
+                }
+                j += 1;
+            }
+            let end = (j + 1).min(chars.len());
+            out.extend(&chars[i..end]);
+            i = end;
+            continue;
+        }
+        if c.is_alphanumeric() || c == '_' || (c as u32) >= 0x80 {
+            let mut j = i;
+            while j < chars.len() && (chars[j].is_alphanumeric() || chars[j] == '_' || chars[j] == '.' || (chars[j] as u32) >= 0x80) {
+                j += 1;
+            }
+            let word: String = chars[i..j].iter().collect();
+            if j < chars.len() && chars[j] == '!' {
+                out.push('\'');
+                out.push_str(&word);
+                out.push('\'');
+            } else {
+                out.push_str(&word);
+            }
+            i = j;
+            continue;
+        }
+        out.push(c);
+        i += 1;
+    }
+    out
+}
+
+fn defined_name_text_class(text: &str) -> &'static str {
+    if text.starts_with('"') {
+        "string-constant"
+    } else if text.contains('\'') {
+        "quoted-sheet"
+    } else if text.contains(',') {
+        "union"
+    } else if text.contains('(') {
+        "function"
+    } else if text.contains('[') {
+        "external"
+    } else if text.contains("#REF!") {
+        "ref-error"
+    } else if !text.contains('!') {
+        "no-sheet"
+    } else {
+        "plain"
+    }
+}
+
+// ---------------------------------------------------------------------------------------
+// known keys (so that a verdict names an unknown key first)
+
+fn known_keys() -> &'static HashSet<String> {
+    static K: OnceLock<HashSet<String>> = OnceLock::new();
+    K.get_or_init(|| load_known().into_iter().filter(|k| k.property == "C03" && k.status == "open").map(|k| k.key).collect())
+}
+
+/// One verdict from a list of discrepancies: an unknown key wins over a known one.
+pub fn verdict_of(discs: &[Disc]) -> Verdict {
+    if discs.is_empty() {
+        return Verdict::Pass;
+    }
+    let known = known_keys();
+    let pick = discs.iter().find(|d| !known.contains(&d.key)).unwrap_or(&discs[0]);
+    let mut keys: BTreeSet<&str> = BTreeSet::new();
+    for d in discs {
+        keys.insert(&d.key);
+    }
+    Verdict::fail(pick.key.clone(), format!("{} [all keys of this case: {}]", pick.detail, keys.into_iter().collect::<Vec<_>>().join(", ")))
+}
+
+// ---------------------------------------------------------------------------------------
+// corpus leg
+
+pub fn corpus_dir() -> String {
+    // the library copy under test (./check may redirect it); tests/test_files is the same in all copies
+    let ovr = std::env::var("VERIF_REPO_OVERRIDE").ok().filter(|s| !s.is_empty());
+    let from_file = std::fs::read_to_string(format!("{}/.repo_override", verif_root())).ok().map(|s| s.trim().to_string()).filter(|s| !s.is_empty());
+    let base = ovr.or(from_file).unwrap_or_else(|| "/repo".to_string());
+    let p = format!("{}/tests/test_files", base);
+    if std::path::Path::new(&p).is_dir() {
+        p
+    } else {
+        "/repo/tests/test_files".to_string()
+    }
+}
+
+pub fn corpus_files() -> Vec<String> {
+    let mut v: Vec<String> = std::fs::read_dir(corpus_dir())
+        .map(|rd| {
+            rd.flatten()
+                .map(|e| e.file_name().to_string_lossy().to_string())
+                .filter(|n| n.ends_with(".xlsx") || n.ends_with(".xlsm"))
+                .collect()
+        })
+        .unwrap_or_default();
+    v.sort();
+    v
+}
+
+#[derive(Debug, Clone, Serialize, Deserialize)]
+pub struct CorpusCase {
+    pub file: String,
+    /// replay only the discrepancies with this key (witness of one finding)
+    #[serde(default)]
+    pub key: Option<String>,
+}
+
+/// Features of a decoded file that make it non-trivial for C03.
+pub fn nontrivial_features(d: &Decoded) -> (usize, bool, bool) {
+    let mut encodings: BTreeSet<String> = BTreeSet::new();
+    let mut above_left = false;
+    let mut attr_entity = false;
+    for s in &d.sheets {
+        if s.name.as_deref().map_or(false, has_xml_special) {
+            attr_entity = true;
+        }
+        let mut masters: BTreeMap<u32, (u32, u32, String)> = BTreeMap::new();
+        for c in &s.cells {
+            if c.kind != "blank" {
+                encodings.insert(cell_feature(c));
+            }
+            if c.f_type.as_deref() == Some("shared") {
+                if c.f_master {
+                    if let (Some(si), Some(f)) = (c.f_si, &c.formula) {
+                        masters.insert(si, (c.col, c.row, f.clone()));
+                    }
+                } else if let Some(si) = c.f_si {
+                    if let Some((mc, mr, text)) = masters.get(&si) {
+                        if master_has_ref_above_left(text, *mc, *mr) {
+                            above_left = true;
+                        }
+                    }
+                }
+            }
+        }
+        for h in &s.hyperlinks {
+            if h.target.as_deref().map_or(false, has_xml_special) || h.location.as_deref().map_or(false, has_xml_special) {
+                attr_entity = true;
+            }
+        }
+        for t in &s.tables {
+            if t.columns.iter().any(|c| c.as_deref().map_or(false, has_xml_special)) {
+                attr_entity = true;
+            }
+        }
+    }
+    for n in &d.defined_names {
+        if n.name.as_deref().map_or(false, has_xml_special) {
+            attr_entity = true;
+        }
+    }
+    for x in &d.styles.num_fmts {
+        if has_xml_special(&x.code) {
+            attr_entity = true;
+        }
+    }
+    (encodings.len(), above_left, attr_entity)
+}
+
+/// Returns (discrepancies, decode for accounting) or a reason why the file is not a case.
+pub fn check_corpus_file(file: &str) -> Result<(Vec<Disc>, Decoded), String> {
+    let path = format!("{}/{}", corpus_dir(), file);
+    let bytes = std::fs::read(&path).map_err(|e| format!("cannot read {}: {}", path, e))?;
+    let (viol, dec) = pyworker::both_path(&path);
+    let dec = dec.map_err(|e| format!("not decodable: {}", e))?;
+    if !viol.is_empty() {
+        return Err(format!("validator rejects the file: {:?}", viol.iter().map(|v| &v.rule).collect::<Vec<_>>()));
+    }
+    let book = guard(|| umya_spreadsheet::reader::xlsx::read_reader(std::io::Cursor::new(&bytes), true));
+    match book {
+        Err(p) => Ok((vec![Disc { key: format!("load/panic:{}", p.site()), detail: format!("{}: {}", file, p.short()) }], dec)),
+        Ok(Err(e)) => Ok((vec![Disc { key: "load/error".into(), detail: format!("{}: {:?}", file, e) }], dec)),
+        Ok(Ok(book)) => {
+            let discs = match guard(|| compare(&dec, &book, CmpOpt { styles: true, per_key: 3 })) {
+                Ok(d) => d,
+                Err(p) => vec![Disc { key: format!("getter/panic:{}", p.site()), detail: format!("{}: {}", file, p.short()) }],
+            };
+            Ok((discs, dec))
+        }
+    }
+}
+
+/// Report only (C02 owns the verdict): what the validator says about corpus files after
+/// the library loaded and re-saved them.  `VERIF_C03_RESAVE_REPORT=1 ./check C03 quick`.
+fn resave_report() {
+    for f in corpus_files() {
+        let path = format!("{}/{}", corpus_dir(), f);
+        let Ok(bytes) = std::fs::read(&path) else { continue };
+        let r = guard(|| {
+            let book = umya_spreadsheet::reader::xlsx::read_reader(std::io::Cursor::new(&bytes), true).map_err(|e| format!("{:?}", e))?;
+            let mut out = std::io::Cursor::new(Vec::new());
+            umya_spreadsheet::writer::xlsx::write_writer(&book, &mut out).map_err(|e| format!("{:?}", e))?;
+            Ok::<Vec<u8>, String>(out.into_inner())
+        });
+        match r {
+            Err(p) => eprintln!("RESAVE {} | panic {}", f, p.short()),
+            Ok(Err(e)) => eprintln!("RESAVE {} | error {}", f, truncate(&e, 100)),
+            Ok(Ok(saved)) => {
+                let v = pyworker::validate(&saved);
+                let mut rules: BTreeMap<String, (usize, String)> = BTreeMap::new();
+                for x in &v {
+                    let e = rules.entry(x.rule.clone()).or_insert((0, format!("{}: {}", x.part, truncate(&x.detail, 120))));
+                    e.0 += 1;
+                }
+                if rules.is_empty() {
+                    eprintln!("RESAVE {} | valid", f);
+                } else {
+                    for (k, (n, first)) in rules {
+                        eprintln!("RESAVE {} | {} x{} | {}", f, k, n, first);
+                    }
+                }
+            }
+        }
+    }
+}
+
+fn extra(ctx: &Ctx) {
+    if std::env::var("VERIF_C03_RESAVE_REPORT").is_ok() {
+        resave_report();
+    }
+    if !pyworker::ping() {
+        eprintln!("HARNESS-ERROR: python worker does not answer");
+        std::process::exit(2);
+    }
+    xlsxgen::self_test();
+    let files = corpus_files();
+    let results: Vec<(String, Result<(Vec<Disc>, Decoded), String>)> = files.par_iter().map(|f| (f.clone(), check_corpus_file(f))).collect();
+    let mut skipped = Vec::new();
+    for (file, r) in results {
+        match r {
+            Err(why) => {
+                skipped.push(json!({"file": file, "why": why}));
+                ctx.add_class("corpus/skipped-not-valid", 1);
+            }
+            Ok((discs, dec)) => {
+                let (enc, above_left, attr_entity) = nontrivial_features(&dec);
+                let nt = enc >= 2 || above_left || attr_entity;
+                ctx.count_case(fnv(file.as_bytes()), nt);
+                ctx.add_class("corpus/files", 1);
+                if above_left {
+                    ctx.add_class("corpus/shared-ref-above-left", 1);
+                }
+                if attr_entity {
+                    ctx.add_class("corpus/attr-entity", 1);
+                }
+                if nt {
+                    ctx.add_sample(json!({"sub": "corpus", "case": {"file": file}, "encodings": enc, "cells": dec.sheets.iter().map(|s| s.cells.len()).sum::<usize>()}));
+                }
+                if std::env::var("VERIF_C03_DUMP").is_ok() {
+                    for d in &discs {
+                        eprintln!("DUMP {} | {} | {}", file, d.key, truncate(&d.detail, 400));
+                    }
+                }
+                // one judgement per key of this file
+                let mut seen: BTreeSet<String> = BTreeSet::new();
+                for d in discs {
+                    if seen.insert(d.key.clone()) {
+                        ctx.judge("corpus", &CorpusCase { file: file.clone(), key: Some(d.key.clone()) }, Verdict::fail(d.key.clone(), d.detail.clone()));
+                    }
+                }
+            }
+        }
+    }
+    ctx.set_extra("corpus_skipped", Value::Array(skipped));
+}
+
+fn replay_extra(_ctx: &Ctx, sub: &str, case: &Value) -> Option<Verdict> {
+    match sub {
+        "corpus" => {
+            let c: CorpusCase = serde_json::from_value(case.clone()).ok()?;
+            match check_corpus_file(&c.file) {
+                Err(why) => Some(Verdict::Discard(why)),
+                Ok((discs, _)) => {
+                    let discs: Vec<Disc> = discs.into_iter().filter(|d| c.key.as_ref().map_or(true, |k| &d.key == k)).collect();
+                    Some(verdict_of(&discs))
+                }
+            }
+        }
+        _ => None,
+    }
+}
+
+// ---------------------------------------------------------------------------------------
+// generated files
+
+fn open_key(pred: impl Fn(&str) -> bool) -> bool {
+    known_keys().iter().any(|k| pred(k))
+}
+
+/// The clean strata avoid exactly the features of the open findings.
+pub fn steer() -> xlsxgen::Steer {
+    xlsxgen::Steer {
+        inline_guess: open_key(|k| k.starts_with("inlineStr/kind:")),
+        inline_rich: open_key(|k| k.starts_with("inlineStr-rich/")),
+        xstring: open_key(|k| k == "xstring-escape/not-decoded"),
+        shared_quoted: open_key(|k| k.starts_with("shared-child-quoted-sheet/")),
+        shared_above_left: open_key(|k| k == "shared-child-ref-above-left/formula"),
+    }
+}
+
+fn oracle_bug(what: &str, spec: &xlsxgen::XlsxSpec) -> ! {
+    eprintln!("HARNESS-ERROR: C03 oracle self-test: {}", truncate(what, 3000));
+    let dir = format!("{}/scratch", verif_root());
+    let _ = std::fs::create_dir_all(&dir);
+    let path = format!("{}/c03-oracle-bug.json", dir);
+    let _ = std::fs::write(&path, serde_json::to_string_pretty(&json!({"property":"C03","sub":"generated","key":"oracle-bug","detail":what,"case":spec})).unwrap());
+    eprintln!("HARNESS-ERROR: case written to {}", path);
+    println!("INCONCLUSIVE property=C03 oracle self-test failed");
+    std::process::exit(2);
+}
+
+/// expected finding-key prefix of each dirty feature
+fn dirty_prefix(d: xlsxgen::Dirty) -> &'static [&'static str] {
+    use xlsxgen::Dirty::*;
+    match d {
+        None => &[],
+        DateCell => &["t-d/"],
+        NoR => &["no-r/"],
+        InlineGuess => &["inlineStr/kind:"],
+        InlineRich => &["inlineStr-rich/"],
+        XString => &["xstring-escape/"],
+        CrLf => &["literal-crlf/"],
+        ImplicitXf0 => &["implicit-xf0/"],
+        SharedBlank => &["shared-child-blank/"],
+        SharedQuotedSheet => &["shared-child-quoted-sheet/"],
+        SharedDoubledQuote => &["shared-child-doubled-quote/"],
+        SharedAboveLeft => &["shared-child-ref-above-left/"],
+        DefNameString => &["defined-name-text-string-constant/"],
+    }
+}
+
+/// Render, validate, cross-check the oracle, load with the library, compare.
+pub fn run_generated(spec: &xlsxgen::XlsxSpec, st: xlsxgen::Steer, obs: &mut Obs) -> Vec<Disc> {
+    let r = xlsxgen::render(spec, st);
+    for e in &r.excluded {
+        obs.excluded(*e);
+    }
+    let (viol, py) = pyworker::both(&r.bytes);
+    if !viol.is_empty() {
+        oracle_bug(&format!("the generator wrote a file its own validator rejects: {:?}", viol), spec);
+    }
+    let py = match py {
+        Ok(p) => p,
+        Err(e) => oracle_bug(&format!("the Python decoder cannot decode a generated file: {}", e), spec),
+    };
+    if let Some(d) = xlsxgen::model_diff(&r.model, &py) {
+        oracle_bug(&format!("Python decoder and generator model disagree: {}", d), spec);
+    }
+    let (enc, _, _) = nontrivial_features(&r.model);
+    obs.nontrivial(enc >= 2 || r.shared_above_left || r.attr_refs > 0);
+    obs.class(format!("encodings-{}", enc.min(6)));
+    obs.class(format!("esc-mode-{}", spec.esc % 3));
+    if r.shared_above_left {
+        obs.class("shared-ref-above-left");
+    }
+    if r.attr_refs > 0 {
+        obs.class("attr-entity");
+    }
+    for s in &r.model.sheets {
+        let mut seen: BTreeSet<String> = BTreeSet::new();
+        for c in &s.cells {
+            if c.kind != "blank" && seen.insert(cell_feature(c)) {
+                obs.class(format!("enc/{}", cell_feature(c)));
+            }
+            if c.f_type.as_deref() == Some("shared") && !c.f_master && seen.insert("shared-child".into()) {
+                obs.class("enc/shared-child");
+            }
+        }
+        if !s.tables.is_empty() {
+            obs.class("table");
+        }
+        if !s.hyperlinks.is_empty() {
+            obs.class("hyperlink");
+        }
+    }
+    if !r.model.defined_names.is_empty() {
+        obs.class("defined-name");
+    }
+    let book = guard(|| umya_spreadsheet::reader::xlsx::read_reader(std::io::Cursor::new(&r.bytes), true));
+    match book {
+        Err(p) => vec![Disc { key: format!("load/panic:{}", p.site()), detail: p.short() }],
+        Ok(Err(e)) => vec![Disc { key: "load/error".into(), detail: format!("{:?}", e) }],
+        Ok(Ok(book)) => match guard(|| compare(&r.model, &book, CmpOpt { styles: true, per_key: 2 })) {
+            Ok(d) => d,
+            Err(p) => vec![Disc { key: format!("getter/panic:{}", p.site()), detail: p.short() }],
+        },
+    }
+}
+
+fn check_clean(spec: &xlsxgen::XlsxSpec, obs: &mut Obs) -> Verdict {
+    let mut spec = spec.clone();
+    spec.dirty = xlsxgen::Dirty::None;
+    let mut discs = run_generated(&spec, steer(), obs);
+    // the clean strata steer around every open finding: seeing one here means the finding
+    // is wider than its description
+    for d in discs.iter_mut() {
+        if known_keys().contains(&d.key) {
+            d.key = format!("clean-stratum/{}", d.key);
+        }
+    }
+    verdict_of(&discs)
+}
+
+fn check_dirty(spec: &xlsxgen::XlsxSpec, obs: &mut Obs) -> Verdict {
+    obs.class(format!("dirty/{:?}", spec.dirty));
+    // everything except the one dirty feature is steered unconditionally, so that a witness
+    // does not change its content when the list of known findings changes
+    let all = xlsxgen::Steer { inline_guess: true, inline_rich: true, xstring: true, shared_quoted: true, shared_above_left: true };
+    let mut discs = run_generated(spec, all, obs);
+    let allowed = dirty_prefix(spec.dirty);
+    for d in discs.iter_mut() {
+        if known_keys().contains(&d.key) && !allowed.iter().any(|p| d.key.starts_with(p)) {
+            d.key = format!("unexpected-in-dirty-{:?}/{}", spec.dirty, d.key);
+        }
+    }
+    verdict_of(&discs)
+}
+
+fn subs() -> Vec<Box<dyn DynSub>> {
+    vec![
+        Box::new(Sub { name: "generated", strategy: xlsxgen::clean_spec, cases: (400, 6000), check: check_clean, max_shrink_iters: 600 }),
+        Box::new(Sub { name: "dirty", strategy: xlsxgen::dirty_spec, cases: (16, 400), check: check_dirty, max_shrink_iters: 300 }),
+    ]
 }
